@@ -150,6 +150,19 @@ def track_block(body, env, tracked, on_eval=None, hook=None):
                             env[nm] = ev(b, env, hook)
                         except Unknown:
                             env[nm] = Opaque()
+        elif isinstance(st, ast.Expr) and isinstance(st.value, ast.Call) and isinstance(st.value.func, ast.Attribute) and st.value.func.attr in ('append', 'extend', 'add') and unparse(st.value.func.value) in tracked:
+            nm = unparse(st.value.func.value)
+            try:
+                val = ev(st.value.args[0], env, hook)
+            except Unknown:
+                val = Opaque()
+            if isinstance(env.get(nm), list):
+                if st.value.func.attr == 'extend' and isinstance(val, (list, tuple)):
+                    env[nm].extend(val)
+                else:
+                    env[nm].append(val)
+            elif isinstance(env.get(nm), set):
+                env[nm].add(val)
         elif isinstance(st, ast.AugAssign):
             nm = unparse(st.target)
             if nm in tracked:
